@@ -152,6 +152,7 @@ type c16Data struct {
 	Configured   bool       `json:"configured"`
 	Retain       bool       `json:"retain"`
 	ClientErrors bool       `json:"client_errors"`
+	DirectOnly   bool       `json:"direct_only,omitempty"`
 	MaxBuf       int        `json:"max_buffer_size"`
 	WaitMs       int64      `json:"max_wait_time"`
 	ZipMin       int        `json:"zip_min_size"`
@@ -190,7 +191,14 @@ func c16Body(configured bool) func(rc *RunCtx) {
 		client := &c16Client{d: d, retain: d.Retain}
 		ctx, cancel := context.WithCancel(context.Background())
 		zip.VerifReset()
-		inst := zip.GetInstance(zip.WithUseQueue(), zip.WithTcpClient(client), zip.WithContext(ctx, cancel))
+		d.DirectOnly = !configured && simrt.Chance(1, 4)
+		var inst *zip.ZipSendProxyThread
+		if d.DirectOnly {
+			// no queue, no background goroutine: records only ever pass through SendDirect
+			inst = zip.GetInstance(zip.WithTcpClient(client), zip.WithContext(ctx, cancel))
+		} else {
+			inst = zip.GetInstance(zip.WithUseQueue(), zip.WithTcpClient(client), zip.WithContext(ctx, cancel))
+		}
 		simrt.OnReset(func() { cancel(); zip.VerifReset() })
 		if configured {
 			d.MaxBuf = []int{300, 1, 120, 1000, 5000, 64 * 1024}[simrt.Choose(6)]
@@ -208,13 +216,20 @@ func c16Body(configured bool) func(rc *RunCtx) {
 			d.MaxBuf, d.WaitMs, d.ZipMin, d.QueueSize = 64*1024, 5000, 100, 1000
 			simrt.Probe("defaults_batch")
 		}
-		d.QueueCap = inst.Queue.GetCapacity()
-		inst.Queue.Failed = func(v interface{}) {
-			if p, ok := v.(*pack.LogSinkPack); ok {
-				c16Refuse(d, int(p.Line))
+		if !d.DirectOnly {
+			d.QueueCap = inst.Queue.GetCapacity()
+			inst.Queue.Failed = func(v interface{}) {
+				if p, ok := v.(*pack.LogSinkPack); ok {
+					c16Refuse(d, int(p.Line))
+				}
 			}
+		} else {
+			d.QueueCap = 1000
 		}
 		nProd := 1 + simrt.Choose(3)
+		if d.DirectOnly {
+			nProd = 0
+		}
 		nextID := 0
 		type item struct {
 			id, size int
@@ -261,7 +276,7 @@ func c16Body(configured bool) func(rc *RunCtx) {
 			total += n
 		}
 		var direct []item
-		if simrt.Chance(1, 3) {
+		if simrt.Chance(1, 3) || d.DirectOnly {
 			n := 1 + simrt.Choose(5)
 			for i := 0; i < n; i++ {
 				nextID++
